@@ -48,6 +48,7 @@ type c11Out struct {
 }
 
 func c11Run(in c11In) c11Out {
+	vk.Running("recovery", in)
 	var out c11Out
 	dir, _ := os.MkdirTemp("", "c11")
 	defer os.RemoveAll(dir)
